@@ -1,4 +1,6 @@
 import AthlibVerif.Lemmas.MatchCodes
+import AthlibVerif.Lemmas.MatchWords
+import AthlibVerif.Gen.Patterns
 /-!
 Obligations over the regenerated patterns and alphabet: the groups the transcription of
 `discipline_sort_key` / `get_distance` / `get_duration_event_time` hands to `int()` can only capture `\d+`;
@@ -23,5 +25,14 @@ def durationGroupsOK : Bool :=
   | _, _ => false
 
 theorem duration_groups : durationGroupsOK = true := by decide +kernel
+
+/-- the metres group of the track pattern captures `\d+`, `MILE` or one digit and `MILE`; M, I, L, E are
+    symbols of their own -/
+theorem track_metres : trackMetresOK = true := by decide +kernel
+
+/-- every throws code starts, up to letter case, with an entry of `FIELD_SORT_ORDER` of two to four letters -/
+theorem throws_prefix : fieldPrefixOK true Gen.PAT_THROWS = true := by decide +kernel
+/-- every jumps code starts, up to letter case, with an entry of `FIELD_SORT_ORDER` of two or three letters -/
+theorem jumps_prefix : fieldPrefixOK false Gen.PAT_JUMPS = true := by decide +kernel
 
 end AthlibVerif.Oblig.C10
